@@ -87,8 +87,8 @@ reg('null_model_und_sign', lambda r: ((_signed(r, False, small=r.random() < 0.5,
     bad=lambda r: ((_signed(r, True),), {}))
 reg('null_model_dir_sign', lambda r: ((_signed(r, True, small=r.random() < 0.5, maybe_unsigned=True),), {'bin_swaps': r.choice((1, 2)), 'wei_freq': r.choice((0.3, 1))}))
 # -- synthetic generators -------------------------------------------------------------------------
-reg('makerandCIJ_und', lambda r: ((r.randint(4, 8), r.randint(1, 6)), {}))
-reg('makerandCIJ_dir', lambda r: ((r.randint(4, 8), r.randint(1, 12)), {}))
+reg('makerandCIJ_und', lambda r: ((r.randint(4, 8), r.randint(1, 6)) if r.random() > 0.15 else (r.randint(24, 40), r.randint(1, 3)), {}))  # 15 %: density below 1 %
+reg('makerandCIJ_dir', lambda r: ((r.randint(4, 8), r.randint(1, 12)) if r.random() > 0.15 else (r.randint(24, 40), r.randint(1, 5)), {}))
 reg('makeringlatticeCIJ', lambda r: ((r.randint(5, 8), r.randint(3, 17)), {}))
 reg('maketoeplitzCIJ', lambda r: ((r.randint(5, 8), r.randint(3, 9), r.choice((1.0, 2.0))), {}))
 reg('makeevenCIJ', lambda r: ((8, r.randint(16, 40), 2), {}))
@@ -179,8 +179,9 @@ def _genmodel(r):
     D = np.round(D, 4)
     m = int(np.triu(A, 1).sum()) + r.randint(1, 3)
     mt = r.choice(('euclidean', 'matching', 'neighbors', 'deg-avg', 'clu-avg', 'deg-prod'))
+    # eta 1 and 0: exponents that make the power an identity / a constant
     npar = r.choice((1, 2, 3))  # a sweep over several (eta, gamma) pairs runs the generator once per pair
-    return (A, D, m, [r.choice((-1.0, -2.0, -0.5)) for _ in range(npar)]), {'gamma': [r.choice((0.5, 1.0, 0.2)) for _ in range(npar)], 'model_type': mt,
+    return (A, D, m, [r.choice((-1.0, -2.0, -0.5, 1.0, 0.0)) for _ in range(npar)]), {'gamma': [r.choice((0.5, 1.0, 0.2)) for _ in range(npar)], 'model_type': mt,
                                                                             'model_var': r.choice(('powerlaw', 'exponential'))}
 
 
